@@ -68,3 +68,70 @@ Proof. split; reflexivity. Qed.
    is proved to occur only where allowed, not "exactly when compression was enabled at
    NextWriter"; (3) every frame that reaches the transport uses the next key of the oracle (by
    construction of keyed_write); the cryptographic quality of crypto/rand cannot be a theorem. *)
+
+(* ---- second half of C02 WITH negotiated compression (closes (1) and (2) above up to the flate
+   oracle): Proofs/WriterEventsZ.v ----
+   compress/flate is an oracle of the writer model, so "the payload reproduces what the
+   application wrote" becomes: the Spec events of the wire are the output of the abstract writer
+   (Spec/WriterSpec.v) -- same messages, same order, same types, RSV1 exactly on the data messages
+   begun while write compression was enabled -- where the payload of every message sent
+   compressed is the oracle stream emitted for THAT message (the chunks of its Writes, then the
+   chunks of its Close or of the implicit close) minus the final 00 00 ff ff.  [zstep]/[zrun] is
+   the abstract writer carrying that stream as a ghost field ([zerase]: forgetting the field
+   gives [astep]/[arun], unconditionally); [zwire] maps an output entry to its wire image.
+   Hypotheses on the oracle (both necessary, see WriterEventsZ.flate_good_needed and
+   rf_good_needed): [flate_good] (each Close-time output ends with the sync marker, as
+   compress/flate does; the harness checks it) and [rf_good] (no ReadFrom while a compressed
+   writer is current: the model does not drive the compressor through ReadFrom). *)
+Require Import WS.Spec.WriterSpec WS.Proofs.WriterEventsP WS.Proofs.WriterEventsZ.
+
+Theorem C02_annotated_writer_erases_to_abstract_writer :
+  forall ng z o r, zerase (zstep ng z o r) = astep ng (zerase z) (wop_aop o) r.
+Proof. exact zstep_erase. Qed.
+Print Assumptions C02_annotated_writer_erases_to_abstract_writer.
+
+Theorem C02_wire_events_compressed :
+  forall c ks ops fs,
+    14 < w_bufsize c -> w_bufsize c < 2^62 ->
+    Forall (fun k => length k = 4%nat) ks -> Forall op_small ops -> no_prepared ops ->
+    (w_negotiated c = false \/
+     (flate_good c (init_wst c ks None) ops /\ rf_good c (init_wst c ks None) ops)) ->
+    let r := wrun c (init_wst c ks None) ops in
+    let res := map e_werr_N (fst r) in
+    let A := arun (w_negotiated c) ast0 (combine (map wop_aop ops) res) in
+    let Z := zrun (w_negotiated c) zst0 (combine ops res) in
+    Forall wf_frame fs -> wire_of (evs (snd r)) = encode_frames fs ->
+    zerase Z = A /\
+    map sent_of_event (events_of fs) = map zwire (z_out Z) /\
+    Forall zstr_ok (z_out Z) /\
+    (a_dead A = false -> a_open A = None -> snd (events_from None fs) = None).
+Proof. exact wire_events_compressed. Qed.
+Print Assumptions C02_wire_events_compressed.
+
+(* the same against the abstract writer's own output, message by message ([zrel]: same type,
+   same compressed flag, same payload if uncompressed, payload ++ 00 00 ff ff = the oracle
+   stream of that message if compressed) *)
+Theorem C02_wire_events_compressed_rel :
+  forall c ks ops fs,
+    14 < w_bufsize c -> w_bufsize c < 2^62 ->
+    Forall (fun k => length k = 4%nat) ks -> Forall op_small ops -> no_prepared ops ->
+    (w_negotiated c = false \/
+     (flate_good c (init_wst c ks None) ops /\ rf_good c (init_wst c ks None) ops)) ->
+    let r := wrun c (init_wst c ks None) ops in
+    let res := map e_werr_N (fst r) in
+    let A := arun (w_negotiated c) ast0 (combine (map wop_aop ops) res) in
+    let Z := zrun (w_negotiated c) zst0 (combine ops res) in
+    Forall wf_frame fs -> wire_of (evs (snd r)) = encode_frames fs ->
+    map fst (z_out Z) = a_out A /\
+    Forall2 zrel (z_out Z) (map sent_of_event (events_of fs)).
+Proof. exact wire_events_compressed_rel. Qed.
+Print Assumptions C02_wire_events_compressed_rel.
+
+(* programs of successful WriteMessage calls: one entry per call, its stream = what the
+   compressor emitted during that call's Write and Close *)
+Theorem C02_annotated_writer_on_messages :
+  forall ng ops, Forall (fun o => match o with WMessage _ _ _ _ _ => True | _ => False end) ops ->
+  forall z, z_open z = None -> z_comp z = true ->
+  z_out (zrun ng z (combine ops (repeat 0 (length ops)))) = z_out z ++ flat_map (msg_entry ng) ops.
+Proof. exact zrun_messages_only. Qed.
+Print Assumptions C02_annotated_writer_on_messages.
